@@ -200,6 +200,8 @@ class MerchantEngine:
                 if match:
                     lhs, rhs = match.groups()
                     try:
+                        # Reject the file now rather than failing silently at every evaluation
+                        expr_parser.parse_expression(rhs)
                         if lhs.startswith('field.'):
                             # Field transform: field.description = regex_replace(...)
                             self.transforms.append((lhs, rhs))
@@ -337,6 +339,18 @@ class MerchantEngine:
                     f"Invalid field expression '{field_name}' in '{rule_data['name']}': {e}",
                     line_number
                 )
+
+        # Pre-parse dynamic {expression} tags for validation
+        for tag in rule_data.get('tags', set()):
+            tag_expr = tag[1:-1].strip() if tag.startswith('{') and tag.endswith('}') else ''
+            if tag_expr:
+                try:
+                    expr_parser.parse_expression(tag_expr)
+                except expr_parser.ExpressionError as e:
+                    raise MerchantParseError(
+                        f"Invalid tag expression '{tag}' in '{rule_data['name']}': {e}",
+                        line_number
+                    )
 
         # Pre-parse the match expression for validation
         try:
